@@ -12,19 +12,33 @@ from ..loader import AnalysisError, Program, dotted, norm
 from . import common as C
 
 ID = 'C17'
-TECHNIQUE = ('abstract evaluation of Ammo.get_velocity_for_temp / calc_powder_sens / Atmo.__init__ to rational normal '
-             'forms; the calibration identity is checked in each of the four strict orderings of the two measurements '
-             '(the code touches them only through <, fabs and == 0); ast check of the solver wiring')
+TECHNIQUE = ('abstract evaluation of Ammo.get_velocity_for_temp / calc_powder_sens / Atmo.__init__ to '
+             'rational normal forms; the calibration identity is checked in each of the four strict orderings'
+             ' of the two measurements (the code touches them only through <, fabs and == 0); the solver '
+             'wiring by evaluation of _init_trajectory around a recorder of get_velocity_for_temp, on a fresh'
+             ' solver and on a second shot with the same ammunition; Ammo.__init__ evaluated for every '
+             'combination of switch and modifier')
 DECIDED = [
     'R1 sensitivity disabled: the stated velocity is returned on every path',
-    'R2 enabled: v(T) = v0 + m * v0/15 * (T - T0) in Celsius and m/s (degree 1, anchored at T0, slope m v0/15)',
-    'R3 the modifier stored by calc_powder_sens makes v(t1) = v1 in all four strict orderings '
-    '(v1 <> v0, t1 <> t0), and equal measurements are rejected',
-    'R4 the solver launches with ammo.get_velocity_for_temp(atmo.powder_temp) in fps, never reads ammo.mv, and '
-    'Atmo keeps the given powder temperature, falling back to the air temperature only when none is given',
-    'R3b / R4b the calibration is evaluated with the sensitivity switch on and off on an ammunition that already carries a modifier; with neither air nor powder temperature given the powder is at the air temperature the Atmo object itself reports',
+    'R2 enabled: v(T) = v0 + m * v0/15 * (T - T0) in Celsius and m/s (degree 1, anchored at T0, slope m '
+    'v0/15)',
+    'R3 the modifier stored by calc_powder_sens makes v(t1) = v1 in all four strict orderings (v1 <> v0, t1 '
+    '<> t0), and equal measurements are rejected',
+    'R4 after _init_trajectory - on a fresh solver and again for a second shot on the same solver with the '
+    'same ammunition and another atmosphere - the launch speed is what ammo.get_velocity_for_temp returned '
+    "for the powder temperature of that shot's atmosphere, read in fps; no other method overwrites it; the "
+    'solver never reads ammo.mv, and Atmo keeps the given powder temperature, falling back to the air '
+    'temperature only when none is given',
+    'R3b / R4b the calibration is evaluated with the sensitivity switch on and off on an ammunition that '
+    'already carries a modifier; with neither air nor powder temperature given the powder is at the air '
+    'temperature the Atmo object itself reports',
+    'R3c Ammo.__init__ stores the sensitivity switch and the modifier as given (switch on / off x no modifier'
+    ' / 0 / m), so an ammunition built with the switch on and calibrated afterwards reproduces the second '
+    'measurement',
 ]
-NOT_DECIDED = ['nothing further']
+NOT_DECIDED = [
+    'nothing further',
+]
 
 
 def _celsius(ev, st, prog, name: str):
